@@ -436,6 +436,7 @@ class Engine:
                 raise Unsupported(f"more than {max_paths} paths in {name or fn}")
             self.reset_path(decisions)
             outcome, value = None, None
+            mstate0 = self._module_containers()
             try:
                 args, kwargs = setup(self)
                 value = self.call(fn, list(args), dict(kwargs))
@@ -455,7 +456,20 @@ class Engine:
                 continue
             results.append(PathResult(outcome, value, list(self.pc), list(self.facts), list(self.obls),
                                       list(self.writes), list(self.decisions), list(self.alg.side), list(self.log), self.ps))
+            mstate1 = self._module_containers()
+            results[-1].module_state_changed = sorted(k for k in mstate0 if k in mstate1 and mstate0[k] != mstate1[k])
         return results
+
+    def _module_containers(self):
+        """Size and keys of every module-level dict / list / set of the repository modules loaded so far (history-freedom checks)."""
+        out = {}
+        for rel, mod in list(self.modules.items()):
+            for k, v in list(mod.env.vars.items()):
+                if isinstance(v, dict):
+                    out[(rel, k)] = ("dict", len(v), tuple(sorted(repr(x)[:50] for x in v.keys())))
+                elif isinstance(v, (list, set)):
+                    out[(rel, k)] = (type(v).__name__, len(v))
+        return out
 
     # ------------------------------------------------------------------ calls
     def call(self, fn, args, kwargs=None, node=None):
